@@ -17,3 +17,7 @@ func verifYield(site string, topic lib.Topic) {
 
 // VerifMaxDataChunkSize exposes the packet payload limit to the harness.
 const VerifMaxDataChunkSize = int(maxDataChunkSize)
+
+// VerifWriteRaw writes bytes to the encrypted connection below the multiplexing layer: what an
+// authenticated but misbehaving peer can put on the wire (length prefixes and envelopes of its choice).
+func (c *MultiConn) VerifWriteRaw(b []byte) (int, error) { return c.conn.Write(b) }
